@@ -60,8 +60,13 @@ def build_metamodule(H, n, pfx="mm.", nested=False, raised_to=None, hole=False):
             m.user_defined[i].label = f"old {i}"
             m.controller_values[f"user_defined_{i + 1}"] = 100 + i
     inner = m.project
-    amp = inner.new_module(Amplifier, name="inner amp")
-    lfo = inner.new_module(Lfo, name="inner lfo")
+    if hole:
+        # keep position 1 empty: append like the loader does (attach_module would fill the gap)
+        amp = inner.attach_module(Amplifier(name="inner amp"), loading=True)
+        lfo = inner.attach_module(Lfo(name="inner lfo"), loading=True)
+    else:
+        amp = inner.new_module(Amplifier, name="inner amp")
+        lfo = inner.new_module(Lfo, name="inner lfo")
     rw.sym_controllers(H, amp, pfx + "amp.")
     rw.sym_controllers(H, lfo, pfx + "lfo.")
     inner.initial_bpm = H.int(pfx + "inner_bpm", *K.U32)
@@ -81,7 +86,23 @@ def build_metamodule(H, n, pfx="mm.", nested=False, raised_to=None, hole=False):
             m.mappings.values[i] = MetaModule.Mapping(targets[i % 4])
         else:
             m.mappings.values[i] = MetaModule.Mapping((H.int(f"{pfx}map{i}.module", 0, 0xFFFF), H.int(f"{pfx}map{i}.ctl", 0, 0xFFFF)))
-    m.update_user_defined_controllers()
+    # value types of the exposed user-defined controllers, derived here from the documented meaning of a
+    # mapping (module = position in the embedded module list INCLUDING empty positions, controller =
+    # 0-based position in that module's controller list) - deliberately not by calling the library's own
+    # update_user_defined_controllers(), which is code under test
+    for i in range(n):
+        mp = m.mappings.values[i]
+        ud = m.user_defined[i]
+        if mp.module == 0 or mp.module >= len(inner.modules) or inner.modules[mp.module] is None:
+            continue
+        tm = inner.modules[mp.module]
+        ctls = list(type(tm).controllers.values())
+        if mp.controller >= len(ctls):
+            continue
+        tc = ctls[mp.controller]
+        ud.value_type = tc.instance_value_type(tm)
+        ud.default = tc.default
+        m.controller_values[ud.name] = tm.controller_values[tc.name]
     for i in range(n):
         ud = m.user_defined[i]
         t = ud.value_type
